@@ -33,3 +33,91 @@ def _kind_names(src):
 const("kind_tags_ser", "ant-protocol/src/storage/header.rs", lambda src: _kind_tags(src, "ser"), ty="list (string * N)")
 const("kind_tags_de", "ant-protocol/src/storage/header.rs", lambda src: _kind_tags(src, "de"), ty="list (string * N)")
 const("kind_names", "ant-protocol/src/storage/header.rs", _kind_names, ty="list string")
+
+
+# ---- names that are on the wire of the CBOR request/response codec (C12): enum variant names and the
+# field names of structs / struct-like variants, in declaration order
+def _rust_item_body(src, kind, name):
+    import re as _re
+    m = _re.search(r"\bpub\s+%s\s+%s\b[^{;]*\{" % (kind, _re.escape(name)), src)
+    if not m:
+        raise ValueError("%s %s not found" % (kind, name))
+    i, depth = m.end(), 1
+    start = i
+    while depth:
+        c = src[i]
+        depth += (c == "{") - (c == "}")
+        i += 1
+    body = src[start:i - 1]
+    body = _re.sub(r"/\*.*?\*/", "", body, flags=_re.S)
+    body = _re.sub(r"#\[[^\]]*\]", "", body)
+    return body
+
+
+def _split_top(body):
+    out, depth, cur = [], 0, ""
+    for c in body:
+        if c in "{(<[":
+            depth += 1
+        elif c in "})>]":
+            depth -= 1
+        if c == "," and depth == 0:
+            out.append(cur)
+            cur = ""
+        else:
+            cur += c
+    out.append(cur)
+    return [x.strip() for x in out if x.strip()]
+
+
+def _enum_variants(file_enum):
+    def f(src):
+        import re as _re
+        vs = [_re.match(r"(\w+)", v).group(1) for v in _split_top(_rust_item_body(src, "enum", file_enum))]
+        if not vs:
+            raise ValueError("no variants")
+        return vs
+    return f
+
+
+def _enum_fields(file_enum):
+    def f(src):
+        import re as _re
+        out = []
+        for v in _split_top(_rust_item_body(src, "enum", file_enum)):
+            m = _re.match(r"(\w+)\s*\{(.*)\}\s*$", v, _re.S)
+            if m:
+                for fld in _split_top(m.group(2)):
+                    out.append("%s.%s" % (m.group(1), _re.match(r"(?:pub(?:\([^)]*\))?\s+)?(\w+)\s*:", fld).group(1)))
+        return out
+    return f
+
+
+def _struct_fields(name):
+    def f(src):
+        import re as _re
+        return [_re.match(r"(?:pub(?:\([^)]*\))?\s+)?(\w+)\s*:", fld).group(1)
+                for fld in _split_top(_rust_item_body(src, "struct", name))]
+    return f
+
+
+for _n, _file, _enum in [("request", "ant-protocol/src/messages.rs", "Request"),
+                         ("response", "ant-protocol/src/messages.rs", "Response"),
+                         ("cmd", "ant-protocol/src/messages/cmd.rs", "Cmd"),
+                         ("query", "ant-protocol/src/messages/query.rs", "Query"),
+                         ("cmd_response", "ant-protocol/src/messages/response.rs", "CmdResponse"),
+                         ("query_response", "ant-protocol/src/messages/response.rs", "QueryResponse"),
+                         ("network_address", "ant-protocol/src/lib.rs", "NetworkAddress"),
+                         ("record_type", "ant-protocol/src/storage/header.rs", "RecordType"),
+                         ("error", "ant-protocol/src/error.rs", "Error")]:
+    const("msg_variants_" + _n, _file, _enum_variants(_enum), ty="list string")
+for _n, _file, _enum in [("cmd", "ant-protocol/src/messages/cmd.rs", "Cmd"),
+                         ("query", "ant-protocol/src/messages/query.rs", "Query"),
+                         ("query_response", "ant-protocol/src/messages/response.rs", "QueryResponse"),
+                         ("error", "ant-protocol/src/error.rs", "Error")]:
+    const("msg_fields_" + _n, _file, _enum_fields(_enum), ty="list string")
+for _n, _file, _st in [("register_address", "ant-registers/src/address.rs", "RegisterAddress"),
+                       ("scratchpad_address", "ant-protocol/src/storage/address/scratchpad.rs", "ScratchpadAddress"),
+                       ("payment_quote", "ant-evm/src/data_payments.rs", "PaymentQuote"),
+                       ("quoting_metrics", "evmlib/src/quoting_metrics.rs", "QuotingMetrics")]:
+    const("msg_fields_" + _n, _file, _struct_fields(_st), ty="list string")
